@@ -79,8 +79,12 @@ Qed.
 
 (* the body phase with everything the completion argument needs *)
 Definition PhB (c : client) : Prop :=
-  ((c_phase c = PhAwaitResp d0 \/ exists d, c_phase c = PhAwaitFin d) /\ c_verified c = None) \/
-  (c_phase c = PhDone (DlOk n) /\ c_verified c = Some body).
+  (c_phase c = PhAwaitResp d0 \/ exists d, c_phase c = PhAwaitFin d) /\ c_verified c = None.
+
+(* the download has ended "ok": this state is what the theorem promises, and the loop leaves it alone *)
+Definition DoneOk (c : client) : Prop :=
+  c_phase c = PhDone (DlOk n) /\ c_verified c = Some body /\ c_received c = n /\ c_open c = true /\
+  w_data (c_w c) = body /\ c_lost c = false /\ w_fin (c_w c) = WResult.
 
 Definition B (t : bytes) (c : client) : Prop :=
   P2 t c /\ (exists rest, body = t ++ rest) /\
@@ -99,22 +103,16 @@ Proof.
   rewrite B2. apply firstn_all2. unfold zlen in *. lia.
 Qed.
 
-Lemma step_B t c d rest : B t c -> body = (t ++ d) ++ rest -> B (t ++ d) (step H json_loads c (EvData d)).
+Lemma step_B t c d rest : B t c -> d <> [] -> body = (t ++ d) ++ rest -> B (t ++ d) (step H json_loads c (EvData d)).
 Proof.
-  intros Hb Hbody. pose proof Hb as (Hp & [rest0 Hr0] & Ho & Hl & Hce & Hfin & Hph).
+  intros Hb Hdne Hbody. pose proof Hb as (Hp & [rest0 Hr0] & Ho & Hl & Hce & Hfin & Hph).
   pose proof Hp as (A1 & A2 & A3 & A4 & A5 & A6 & A7 & A8 & A9).
   destruct (w_closed (c_w c)) eqn:Ecl.
-  - (* the writer is closed: the body is complete, so d is empty, and nothing changes *)
-    destruct (closed_means_complete t c Hb Ecl) as [Ht Hw]. subst t.
-    assert (Hd : d = []).
-    { assert (Hz : zlen body = zlen ((body ++ d) ++ rest)) by (rewrite <- Hbody; reflexivity).
-      rewrite !zlen_app in Hz.
-      pose proof (zlen_nonneg rest). pose proof (zlen_nonneg d). destruct d; [reflexivity|]. unfold zlen in *. cbn in *. lia. }
-    subst d. rewrite app_nil_r.
-    assert (Es : step H json_loads c (EvData []) = set_buf [] c).
-    { unfold step, step_with, data_received. rewrite Ho, A1, A4. cbn. rewrite orb_true_r, A2, Ecl. cbn.
-      unfold parse_path. rewrite A7. cbn. rewrite A4. cbn. reflexivity. }
-    rewrite Es. unfold B, P2, PhB. cbn. unfold P2 in Hp. repeat split; try tauto. exists rest0. exact Hr0.
+  - (* the writer is closed: the body is complete, so there is nothing left to deliver *)
+    exfalso. destruct (closed_means_complete t c Hb Ecl) as [Ht Hw]. subst t.
+    assert (Hz : zlen body = zlen ((body ++ d) ++ rest)) by (rewrite <- Hbody; reflexivity).
+    rewrite !zlen_app in Hz.
+    pose proof (zlen_nonneg rest). destruct d; [congruence|]. unfold zlen in *. cbn in *. lia.
   - assert (Hw : exists c', cl_write H c d = (c', false) /\ P2 (t ++ d) c' /\ c_open c' = c_open c /\ c_lost c' = c_lost c).
     { eapply write_P2; eassumption. }
     destruct Hw as (c' & Hw & Hp' & Ho' & Hl').
@@ -150,20 +148,15 @@ Qed.
 Lemma drain_not_lost c : c_lost c = false -> drain c = co_step (run_callbacks c).
 Proof. intro Hl. unfold drain. rewrite lost_co_step, lost_run_callbacks, Hl. reflexivity. Qed.
 
-Lemma B_intro_closed c' :
-  c_att c' = true -> c_has_w c' = true -> c_hash c' = hash -> c_fut c' = FutResult r ->
-  c_delivered c' = 1%nat -> c_len c' = Some n -> c_buf c' = [] -> c_received c' = n ->
-  c_w c' = mkW body true WResult -> c_open c' = true -> c_lost c' = false -> c_closed_ev c' = false ->
-  c_phase c' = PhDone (DlOk n) -> c_verified c' = Some body ->
-  B body c'.
+Lemma DoneOk_intro c' :
+  c_received c' = n -> c_w c' = mkW body true WResult -> c_open c' = true -> c_lost c' = false ->
+  c_phase c' = PhDone (DlOk n) -> c_verified c' = Some body -> DoneOk c'.
+Proof. intros C1 C2 C3 C4 C5 C6. unfold DoneOk. rewrite C1, C2, C3, C4, C5, C6. repeat split. Qed.
+
+Lemma drain_DoneOk c : DoneOk c -> drain c = c.
 Proof.
-  intros C1 C2 C3 C4 C5 C6 C7 C8 C9 C10 C11 C12 C13 C14.
-  unfold B, C10Frag.P2, PhB. rewrite C1, C2, C3, C4, C5, C6, C7, C8, C9, C10, C11, C12, C13, C14.
-  cbn [w_data w_closed w_fin].
-  split; [|split; [exists []; symmetry; apply app_nil_r|]].
-  - repeat (split; [reflexivity|]). split; [symmetry; exact Hlen|]. right.
-    split; [reflexivity|]. split; [|lia]. symmetry. apply firstn_all2. unfold zlen in Hlen. lia.
-  - repeat (split; [reflexivity|]). right. split; reflexivity.
+  intros (D1 & D2 & D3 & D4 & D5 & D6 & D7). rewrite drain_not_lost by exact D6.
+  unfold run_callbacks. rewrite D7, D2. unfold co_step. rewrite D1. reflexivity.
 Qed.
 
 Lemma B_intro_open t rest0 c' :
@@ -181,49 +174,43 @@ Proof.
   - repeat (split; [reflexivity|]). split; [discriminate|exact C13].
 Qed.
 
-(* the loop runs during the body phase: the checks pass; when the body is complete the blob is verified *)
+(* the loop runs during the body phase: the checks pass; when the body is complete the blob is verified and the
+   download ends ok *)
 Lemma drain_B t c : B t c ->
-  B t (drain c) /\ (t = body -> c_phase (drain c) = PhDone (DlOk n) /\ c_verified (drain c) = Some body /\
-                                c_received (drain c) = n /\ c_open (drain c) = true).
+  (w_closed (c_w c) = false -> B t (drain c)) /\ (w_closed (c_w c) = true -> DoneOk (drain c)).
 Proof.
   intros Hb. pose proof Hb as (Hp & [rest0 Hr0] & Ho & Hl & Hce & Hfin & Hph).
   pose proof Hp as (A1 & A2 & A3 & A4 & A5 & A6 & A7 & A8 & A9).
   destruct (w_closed (c_w c)) eqn:Ecl.
   - (* closed writer: complete and verified *)
+    split; [discriminate|]. intros _.
     destruct (closed_means_complete t c Hb Ecl) as [Ht Hw]. pose proof (Hfin eq_refl) as Hres.
     assert (Hrecv : c_received c = n) by (rewrite A8, Hw; exact Hlen).
     clear Hb Hp Hfin A8 A9. subst t.
     destruct c as [o l ce a f rc b hw w hs ln v ph nw T dl uk]. destruct w as [wd wc wf].
     cbn in Ho, Hl, Hce, A1, A2, A3, A4, A5, A6, A7, Ecl, Hw, Hres, Hrecv. subst o l ce a hw hs f dl ln b wc wd wf rc.
     unfold PhB in Hph. cbn in Hph.
-    assert (Hgoal : forall c', B body c' -> c_phase c' = PhDone (DlOk n) -> c_verified c' = Some body ->
-               c_received c' = n -> c_open c' = true ->
-        B body c' /\ (body = body -> c_phase c' = PhDone (DlOk n) /\ c_verified c' = Some body /\ c_received c' = n /\ c_open c' = true)).
-    { intros c' X1 X2 X3 X4 X5. split; [exact X1|]. intros _. repeat split; assumption. }
-    destruct uk; destruct Hph as [[[Hph|[d Hph]] Hv]|[Hph Hv]]; subst ph v;
+    destruct Hph as [[Hph|[d Hph]] Hv]; subst ph v;
       rewrite drain_not_lost by reflexivity;
       unfold run_callbacks, co_step, co_await_fin, finish, run_callbacks; cbn -[acceptable Z.add];
-      rewrite ?Hacc; cbn -[acceptable Z.add]; (apply Hgoal; [apply B_intro_closed|..]); reflexivity.
+      rewrite ?Hacc; cbn -[acceptable Z.add]; apply DoneOk_intro; reflexivity.
   - (* open writer: still waiting for the rest *)
+    split; [|discriminate]. intros _.
     destruct A9 as [(B1 & B2 & B3 & B4 & B5)|(B1 & _)]; [|congruence].
-    assert (Hne : t <> body) by (intro Heq; rewrite Heq in B4; lia).
-    split; [|intro; contradiction].
-    clear Hb Hp Hfin B5 Hne.
+    clear Hb Hp Hfin B5.
     destruct c as [o l ce a f rc b hw w hs ln v ph nw T dl uk]. destruct w as [wd wc wf].
     cbn in Ho, Hl, Hce, A1, A2, A3, A4, A5, A6, A7, A8, B1, B2, B3, Ecl. subst o l ce a hw hs f dl ln b wc wd wf rc.
     unfold PhB in Hph. cbn in Hph.
-    destruct Hph as [[[Hph|[d Hph]] Hv]|[Hph Hv]]; subst ph v;
+    destruct Hph as [[Hph|[d Hph]] Hv]; subst ph v;
       rewrite drain_not_lost by reflexivity;
       unfold run_callbacks, co_step, co_await_fin, finish, run_callbacks; cbn -[acceptable Z.add];
       rewrite ?Hacc; cbn -[acceptable Z.add]; apply (B_intro_open t rest0); try reflexivity; try assumption;
-      unfold PhB; cbn.
-    + left. split; [right; eexists; reflexivity|reflexivity].
-    + left. split; [right; eexists; reflexivity|reflexivity].
-    + right. split; reflexivity.
+      unfold PhB; cbn; (split; [right; eexists; reflexivity|reflexivity]).
 Qed.
 
 (* ---- schedules: segments and loop runs in any order *)
-Definition sched_ok (e : event) : Prop := match e with EvData _ | EvDrain => True | _ => False end.
+(* asyncio never calls data_received with an empty segment *)
+Definition sched_ok (e : event) : Prop := match e with EvData d => d <> [] | EvDrain => True | _ => False end.
 Fixpoint data_of (evs : list event) : bytes :=
   match evs with
   | [] => []
@@ -233,7 +220,8 @@ Fixpoint data_of (evs : list event) : bytes :=
 
 Definition HInv (c0 : client) (pre : bytes) (c : client) : Prop :=
   (c = set_buf pre c0 /\ exists rest, hdr = pre ++ rest /\ rest <> []) \/
-  (exists t, pre = hdr ++ t /\ B t c).
+  (exists t, pre = hdr ++ t /\ B t c) \/
+  (pre = hdr ++ body /\ DoneOk c).
 
 Lemma B_after_header c0 pre d t rest :
   Start c0 -> pre ++ d = hdr ++ t -> body = t ++ rest ->
@@ -247,7 +235,7 @@ Proof.
       (let '(c2, raised) := write_if_open H c1 t in if raised then force_close c2 else c2)).
   { eapply step_completes_header_eq; eassumption. }
   destruct He as (c1 & Hp1 & Hop & Hhw & Ho1 & Hl1 & Hc1 & Hv1 & Hph1 & Es). rewrite Es.
-  assert (HphB : PhB c1) by (left; split; [left; congruence|congruence]).
+  assert (HphB : PhB c1) by (split; [left; congruence|congruence]).
   unfold write_if_open. destruct t as [|b t'].
   - unfold B. split; [exact Hp1|]. split; [exists rest; exact Hbody|].
     split; [exact Ho1|]. split; [congruence|]. split; [congruence|]. split; [congruence|exact HphB].
@@ -268,22 +256,28 @@ Lemma HInv_step c0 pre c e more :
   Start c0 -> HInv c0 pre c -> sched_ok e -> (pre ++ data_of [e]) ++ more = hdr ++ body ->
   HInv c0 (pre ++ data_of [e]) (step H json_loads c e).
 Proof.
-  intros Hs Hinv Hok Hstream. destruct e as [d|d| | |]; try contradiction; cbn [data_of] in *.
-  - rewrite app_nil_r in *.
-    destruct Hinv as [[Hc [rest [Hh Hne]]]|[t [Hp Hb]]].
+  intros Hs Hinv Hok Hstream. destruct e as [d|d| | | |]; try contradiction; cbn [data_of] in *.
+  - rewrite app_nil_r in *. cbn in Hok.
+    destruct Hinv as [[Hc [rest [Hh Hne]]]|[[t [Hp Hb]]|[Hp Hd]]].
     + subst c. destruct (prefix_cases _ _ _ _ Hstream) as [[z [Hz Hzn]]|[t Ht]].
       * left. split; [|exists z; split; assumption].
         destruct Hs as (Hi & _). eapply step_in_header; eassumption.
-      * right. exists t. split; [exact Ht|].
+      * right. left. exists t. split; [exact Ht|].
         rewrite Ht, <- app_assoc in Hstream. apply app_inv_head in Hstream.
         eapply B_after_header; [exact Hs|exact Ht|symmetry; exact Hstream].
-    + right. exists (t ++ d). split; [rewrite Hp, app_assoc; reflexivity|].
+    + right. left. exists (t ++ d). split; [rewrite Hp, app_assoc; reflexivity|].
       rewrite Hp, <- !app_assoc in Hstream. apply app_inv_head in Hstream. rewrite app_assoc in Hstream.
-      eapply step_B; [exact Hb|symmetry; exact Hstream].
+      eapply step_B; [exact Hb|exact Hok|symmetry; exact Hstream].
+    + (* everything was delivered already: no non-empty segment can follow *)
+      exfalso. rewrite Hp in Hstream. apply (f_equal (@length _)) in Hstream. rewrite !app_length in Hstream.
+      destruct d; [congruence|]. cbn in Hstream. lia.
   - rewrite app_nil_r in *. unfold step, step_with.
-    destruct Hinv as [[Hc [rest [Hh Hne]]]|[t [Hp Hb]]].
+    destruct Hinv as [[Hc [rest [Hh Hne]]]|[[t [Hp Hb]]|[Hp Hd]]].
     + left. subst c. rewrite (drain_in_header c0 pre Hs). split; [reflexivity|exists rest; split; assumption].
-    + right. exists t. split; [exact Hp|]. apply drain_B. exact Hb.
+    + destruct (drain_B t c Hb) as [Hopen Hclosed]. destruct (w_closed (c_w c)) eqn:Ecl.
+      * right. right. destruct (closed_means_complete t c Hb Ecl) as [Ht _]. subst t. split; [exact Hp|apply Hclosed; reflexivity].
+      * right. left. exists t. split; [exact Hp|apply Hopen; reflexivity].
+    + right. right. rewrite (drain_DoneOk c Hd). split; assumption.
 Qed.
 
 Lemma data_of_app a b : data_of (a ++ b) = data_of a ++ data_of b.
@@ -315,14 +309,18 @@ Proof.
   assert (Hinv0 : HInv c0 [] c0).
   { left. split; [symmetry; apply set_buf_id; apply Hs|]. exists hdr. split; [reflexivity|].
     destruct Hend as [h0 ->]. destruct h0; discriminate. }
-  pose proof (HInv_run c0 Hs evs [] c0 Hinv0 Hok Hd) as [[_ [rest [Hh Hne]]]|[t [Hp Hb]]].
+  assert (Hgoal : forall x, DoneOk x -> c_phase x = PhDone (DlOk n) /\ c_verified x = Some body /\ c_received x = n /\
+                                          c_open x = true /\ w_data (c_w x) = body).
+  { intros x (D1 & D2 & D3 & D4 & D5 & _). repeat split; assumption. }
+  pose proof (HInv_run c0 Hs evs [] c0 Hinv0 Hok Hd) as [[_ [rest [Hh Hne]]]|[[t [Hp Hb]]|[_ Hdone]]].
   - exfalso. apply (f_equal (@length _)) in Hh. rewrite !app_length in Hh. destruct rest; [congruence|cbn in Hh; lia].
-  - apply app_inv_head in Hp. subst t.
-    destruct (drain_B body _ Hb) as [Hb' Hfin]. destruct (Hfin eq_refl) as (F1 & F2 & F3 & F4).
-    fold c in Hb', F1, F2, F3, F4. repeat split; auto.
-    destruct Hb' as (Hp2 & _). destruct Hp2 as (_ & _ & _ & _ & _ & _ & _ & A8 & A9).
-    destruct A9 as [(B1 & B2 & B3 & B4 & B5)|(B1 & B2 & B3)]; [exact B3|].
-    rewrite B2. apply firstn_all2. unfold zlen in *. lia.
+  - apply app_inv_head in Hp. subst t. apply Hgoal. unfold c.
+    destruct (drain_B body _ Hb) as [Hopen Hclosed].
+    destruct (w_closed (c_w (run H json_loads c0 evs))) eqn:Ecl; [apply Hclosed; reflexivity|].
+    (* an open writer holds less than n bytes, but the whole body has been delivered *)
+    exfalso. destruct Hb as ((_ & _ & _ & _ & _ & _ & _ & _ & A9) & _).
+    destruct A9 as [(B1 & B2 & B3 & B4 & B5)|(B1 & _)]; [lia|congruence].
+  - apply Hgoal. unfold c. rewrite (drain_DoneOk _ Hdone). exact Hdone.
 Qed.
 
 End Honest.
